@@ -14,6 +14,12 @@ where
     D: Deserializer<'de>,
 {
     let duration: NtpDuration = Deserialize::deserialize(deserializer)?;
+    if duration < NtpDuration::ZERO {
+        return Err(de::Error::invalid_value(
+            Unexpected::Other("negative duration"),
+            &"a positive number",
+        ));
+    }
     Ok(if duration == NtpDuration::ZERO {
         None
     } else {
